@@ -28,3 +28,21 @@ Theorem c16_slot_suffices_partial : forall start w rows reqs, 0 <= w -> 0 <= row
   exists l', bump_all start (start + w * rows) reqs = Some l' /\ blocks_ok start (start + w * rows) l'.
 Proof. exact lusup_slot_suffices. Qed.
 Print Assumptions c16_slot_suffices_partial.
+
+From SLU Require Import SymFill.
+
+(* with diagonal pivots (no row interchange) the fill of the matrix stays inside the fill of A^T + A at every stage of the
+   elimination: monotonicity of the elimination step, induction on the number of eliminated columns (any n, any pattern) *)
+Theorem c16_fill_within_symmetric : forall k (P : pat) i j, elim k P i j = true -> elim k (symm P) i j = true.
+Proof. exact fill_within_symmetric. Qed.
+Print Assumptions c16_fill_within_symmetric.
+
+(* hence every column of L has at most as many entries as the symmetric (Cholesky of A^T + A) prediction *)
+Theorem c16_column_counts_dominated : forall n (P : pat) j, (lcount n (elim n P) j <= lcount n (elim n (symm P)) j)%nat.
+Proof. exact lcount_le. Qed.
+Print Assumptions c16_column_counts_dominated.
+
+(* the executable (tabulated) column counts used in the correspondence are those of the abstract elimination *)
+Theorem c16_executable_counts : forall n (P : pat) j, (j < n)%nat -> lcountT n P j = lcount n (elim n P) j.
+Proof. exact lcountT_eq. Qed.
+Print Assumptions c16_executable_counts.
